@@ -254,6 +254,7 @@ func (p *parseState) line(toks []string) (string, bool) {
 }
 
 type loadState struct {
+	hangs  int
 	dir    string
 	cfgs   *DeviceConfigs
 	loaded string
@@ -343,12 +344,15 @@ func (l *loadState) line(toks []string) (string, bool) {
 		old, _ := os.Getwd()
 		os.Chdir(l.dir)
 		defer os.Chdir(old)
-		res := ""
-		func() {
+		// the load runs under a time limit: a loader that never returns is reported as "hang" (the goroutine is abandoned)
+		done := make(chan string, 1)
+		go func() {
+			res := ""
 			defer func() {
 				if e := recover(); e != nil {
 					res = "panic"
 				}
+				done <- res
 			}()
 			var wg sync.WaitGroup
 			c, err := LoadDeviceConfigs(context.Background(), &wg)
@@ -360,7 +364,18 @@ func (l *loadState) line(toks []string) (string, bool) {
 			res = fmt.Sprintf("ok fg=[%s] fk=[%s] ug=[%s] uk=[%s]", dumpCM(c.Factory.Gamepads), dumpCM(c.Factory.Keyboards),
 				dumpCM(c.User.Gamepads), dumpCM(c.User.Keyboards))
 		}()
-		return res, true
+		limit := 8 * time.Second
+		if l.hangs > 0 {
+			limit = time.Second
+		}
+		select {
+		case res := <-done:
+			return res, true
+		case <-time.After(limit):
+			l.hangs++
+			l.cfgs = nil
+			return "hang", true
+		}
 	case "find":
 		if l.cfgs == nil {
 			return "noload", true
